@@ -21,7 +21,11 @@ RULE = ("real backend()/process_io()/get_user_data()/copy_chars()/get_user_comma
         "delivered text must be a subsequence of the RFC 854 data bytes (no negotiation byte in a command); 'x BS' / BS at line start "
         "must equal the stream without them (metamorphic, same driver); two different fillings of the never-initialised buffers must "
         "give the same delivery; after every read and every cycle 0<=text_start<=text_end<MAX_TEXT, text[text_end]==0 (telnet, console), "
-        "sb_pos<=SB_SIZE, nothing written past the logical MAX_TEXT; single-char mode for safety only. (b) long line a^n for every n in "
+        "sb_pos<=SB_SIZE, nothing written past the logical MAX_TEXT; single-char mode for safety only. (a') every stream of length <= L' over {a b CR LF} x "
+        "user object that on its k-th input line (k=0..2) raises an uncaught error | destructs itself | exec()s the connection to a new "
+        "object, the lines arriving through process_input | a re-arming input_to callback | a catch-all command, x all segmentations x "
+        "3 placements: lines (logged by a separate object) must equal the unsegmented delivery, and on the ASCII port the LF-separated "
+        "lines exactly once in order. (b) long line a^n for every n in "
         "[0,3*MAX_TEXT] at MAX_TEXT=48 (and n within +-4 of 10 boundaries at 2048; thorough: every n) x 11 read sizes x 3 command "
         "placements followed by a short line: pieces delivered are cuts of the line, the short line arrives intact, lines <= MAX_TEXT/2 "
         "arrive whole, the connection survives. (c) bursts of k lines of m characters up to 3*MAX_TEXT bytes x read sizes x placements: "
@@ -60,6 +64,9 @@ def parts(ck):
     add(R, ["--family=single", "--port=telnet", "--L=%d" % (3 if q else 4)], "single-char", 200, 60 if q else 90)
     if not q:
         add(R, ["--family=short", "--port=telnet", "--L=6", "--alpha=8"], "short-telnet-L6a8", 100, 240)
+    # (a') mudlib behaviour: on its k-th line the user object errors / destructs itself / exec()s the connection away
+    for port, lq, lt in (("telnet", 5, 6), ("ascii", 5, 6), ("binary", 4, 5), ("console", 4, 5)):
+        add(R, ["--family=behave", "--port=" + port, "--L=%d" % (lq if q else lt)], "behave-" + port, 100, 40 if q else 120)
     add(R, ["--family=eof", "--port=telnet", "--L=1"], "eof", 1, 30)
     # (b) long lines, (c) bursts: exhaustive at MAX_TEXT=48, boundaries (quick) / every n (thorough) at 2048
     for port in ("telnet", "ascii", "console"):
